@@ -187,7 +187,7 @@ def _run(ex: Executor, w: World, src: FunctionSource, contract: Contract, res: F
             s_acc = s.fork()
             deps = []
             for eid, es in contract.ensures.items():
-                ctx = SpecCtx(ex, old=pre, cur=s, names=names)
+                ctx = SpecCtx(ex, old=pre, cur=s_acc, names=names)
                 g = ctx.eval_bool(es)
                 n_before = len(ex.obligations)
                 ex.oblige(s_acc, g, f"{eid}.r{idx}", "post", fn, es)
